@@ -329,6 +329,8 @@ func (u *Unit) header() string {
 	for _, t := range u.ss.tagOrder {
 		fmt.Fprintf(&b, "(define-fun %s () Int %d)\n", t, u.ss.tags[t])
 	}
+	b.WriteString(u.p.lateText)
+	b.WriteString("\n")
 	for _, d := range u.decls {
 		b.WriteString(d + "\n")
 	}
